@@ -157,4 +157,24 @@ def spec (cap maxPayload : Nat) (hdr : List Byte â†’ Hdr) : Nat â†’ List Byte â†
 
 def init : RS := { buf := [], linePos := none }
 
+/-! ### a peer that goes silent instead of closing
+
+`frames` / `spec` end a finite stream with the peer's EOF.  When the peer instead stops sending and keeps the socket open, the
+connection loop is at the same place with a pending read: inside a payload (body or terminator outstanding) that read is under
+`payload_read_timeout` and ends in TIMEOUT "payload read timeout" and a close; between frames (or inside a header line) the
+loop simply waits â€” the keep-alive and handshake deadlines of `Timers.lean` apply there. -/
+
+inductive SEv
+  | ev (e : Ev)
+  | closedPayloadTimeout    -- TIMEOUT "payload read timeout", closed
+  | waiting                 -- nothing: the connection stays open, reading
+deriving Repr, DecidableEq
+
+/-- what the silent peer observes, from what the closing peer would have observed -/
+def stallView : List Ev â†’ List SEv
+  | [] => []
+  | [.closedTruncated] => [.closedPayloadTimeout]
+  | [.eof] => [.waiting]
+  | e :: es => .ev e :: stallView es
+
 end Narwhal.Reader
